@@ -11,12 +11,13 @@ Definition alloc_one (s : state) (a n : N) : state :=
 Lemma try_create_tickets_iff s a n s' :
   n < usize_lim ->
   (try_create_tickets s a n = Ok s' <->
-   range s a = None /\ last_ticket_id s + 1 < u64_lim - 1 - n /\ s' = alloc_one s a n).
+   0 < n /\ range s a = None /\ last_ticket_id s + 1 < u64_lim - 1 - n /\ s' = alloc_one s a n).
 Proof.
   intros Hn. unfold try_create_tickets, alloc_one. split.
-  - intros E. mon_inv. match goal with Hx : (_ <? _) = true |- _ => apply N.ltb_lt in Hx end.
-    subst. split; [destruct (range s a); [discriminate|reflexivity]|]. split; [assumption|]. reflexivity.
-  - intros (Hr & Hl & ->). rewrite Hr. cbn [bind require].
+  - intros E. apply bind_ok in E. destruct E as (u0 & Hp & E). apply require_ok' in Hp. apply N.ltb_lt in Hp.
+    mon_inv. match goal with Hx : (_ <? _) = true |- _ => apply N.ltb_lt in Hx end.
+    subst. split; [exact Hp|]. split; [destruct (range s a); [discriminate|reflexivity]|]. split; [assumption|]. reflexivity.
+  - intros (Hp & Hr & Hl & ->). rewrite (proj2 (N.ltb_lt _ _) Hp). cbn [bind require]. rewrite Hr. cbn [bind require].
     unfold usub. unfold usize_lim, u64_lim in *.
     destruct (N.leb_spec n (18446744073709551616 - 1)); [|lia]. cbn [bind].
     replace (last_ticket_id s + 1 <? 18446744073709551616 - 1 - n) with true by (symmetry; apply N.ltb_lt; lia).
@@ -53,7 +54,7 @@ Proof.
     intros pre a n post Hl. destruct pre; discriminate.
   - apply bind_ok in E. destruct E as (u & Hu & E). unfold usize_arg in Hu. apply require_ok' in Hu. apply N.ltb_lt in Hu.
     apply bind_ok in E. destruct E as (s1 & H1 & E).
-    apply (try_create_tickets_iff _ _ _ _ Hu) in H1. destruct H1 as (Hr & Hlim & ->).
+    apply (try_create_tickets_iff _ _ _ _ Hu) in H1. destruct H1 as (Hpos1 & Hr & Hlim & ->).
     destruct (IH _ _ E) as (-> & Hnd & Hnone & Hlast & Hother & Hpre).
     assert (Hnotin : ~ In a (map fst l)).
     { intros Hin. specialize (Hnone a Hin). rewrite alloc_one_range_self in Hnone. discriminate. }
@@ -193,7 +194,7 @@ Proof.
   apply bind_ok in E. destruct E as (s1 & Hc & E).
   apply bind_ok in E. destruct E as (u4 & H4 & E). destruct u4. apply infos_ok_spec in H4.
   assert (Hlt : allowance < usize_lim) by (unfold MAX_TICKETS_ALLOWANCE, usize_lim in *; lia).
-  apply (try_create_tickets_iff _ _ _ _ Hlt) in Hc. destruct Hc as (Hr & _ & ->).
+  apply (try_create_tickets_iff _ _ _ _ Hlt) in Hc. destruct Hc as (_ & Hr & _ & ->).
   split; [lia|]. split; [assumption|]. split; [assumption|]. split; [assumption|]. split; [assumption|].
   split; [assumption|].
   destruct (N.ltb_spec 0 (infos_sum infos)) as [Hg|Hg].
